@@ -481,6 +481,14 @@ func TestC02_Replay(t *testing.T) {
 			t.Fatalf("INFRA: %v", err)
 		}
 		oerr = c02OrderOracle(c, b.Root(), []string{"userspace", "hotfix", "fsp"})
+	case "exec": // stage shared with C07
+		var s C07Set
+		json.Unmarshal(rf.Case, &s)
+		oerr = c07ExecOracle(s)
+	case "stack":
+		var s C07Set
+		json.Unmarshal(rf.Case, &s)
+		oerr = c07StackOracle(s)
 	case "repeat":
 		var w struct {
 			Config Config `json:"config"`
